@@ -24,6 +24,7 @@ import (
 // nothing lost, duplicated, overwritten or torn, wherever the ring wrapped.
 
 type SRCase struct {
+	Transport
 	BufSize    int     `json:"bufsize"`
 	Publishers [][]int `json:"publishers"` // payload sizes per publisher (QoS 0)
 	ReadFirst  int     `json:"read_first"` // the subscriber reads about this many bytes before it stops
@@ -35,6 +36,7 @@ func runSvcRings(c SRCase) (fail, incon string, classes []string) {
 	if err != nil {
 		return "fixture: " + err.Error(), "", nil
 	}
+	c.Transport.apply(b)
 	defer b.Shutdown()
 	S := b.Dial("S")
 	type got struct {
@@ -190,6 +192,7 @@ func genSvcRings(t *rapid.T) SRCase {
 		}
 		c.Publishers = append(c.Publishers, sizes)
 	}
+	c.Transport = genTransport(t)
 	return c
 }
 
